@@ -214,6 +214,45 @@ Exec ==
     [] OTHER -> Err("unknown-opcode")
 
 ---------------------------------------------------------------------------
+(* what an instruction needs to be executable at all: enough operands of the right kinds, slots that exist.  *)
+(* Code for which this fails is not code the compiler may emit (C17); the verdict says so instead of the     *)
+(* specification getting stuck.                                                                              *)
+Kinds(k) == [i \in 1..k |-> stk[Len(stk) - k + i].t]          \* kinds of the k topmost values, deepest first
+Problem ==
+  LET op == Instr.op
+      a  == Instr.a
+      n  == Len(stk)
+      Has(k) == n >= k
+      Are(ks) == Has(Len(ks)) /\ Kinds(Len(ks)) = ks
+      NumOrNone(t) == t \in {"num", "none"}
+  IN
+  CASE op = "OpConstant"  -> IF a + 1 \in DOMAIN P.consts THEN "" ELSE "constant index out of range"
+    [] op = "OpGetGlobal" -> IF a + 1 \in DOMAIN glb THEN "" ELSE "global index out of range"
+    [] op = "OpSetGlobal" -> IF ~Has(1) THEN "stack underflow" ELSE IF a + 1 \in DOMAIN glb THEN "" ELSE "global index out of range"
+    [] op = "OpGetLocal"  -> IF a + 1 <= n THEN "" ELSE "local slot above the stack"
+    [] op = "OpSetLocal"  -> IF ~Has(1) THEN "stack underflow" ELSE IF a + 1 <= n - 1 THEN "" ELSE "local slot above the stack"
+    [] op = "OpDrop"      -> IF Has(a) THEN "" ELSE "stack underflow"
+    [] op \in {"OpAdd", "OpSubtract", "OpMultiply", "OpDivide", "OpModulo", "OpNumLessThan", "OpNumLessThanEqual", "OpNumGreaterThan", "OpNumGreaterThanEqual"} ->
+         IF Are(<<"num", "num">>) THEN "" ELSE "operands are not two nums"
+    [] op \in {"OpStringLessThan", "OpStringLessThanEqual", "OpStringGreaterThan", "OpStringGreaterThanEqual", "OpStringConcatenate"} ->
+         IF Are(<<"str", "str">>) THEN "" ELSE "operands are not two strings"
+    [] op \in {"OpEqual", "OpNotEqual"} -> IF Has(2) /\ Kinds(2)[1] = Kinds(2)[2] /\ Kinds(2)[1] \in {"num", "str", "bool", "arr", "map"} THEN "" ELSE "operands of different kinds"
+    [] op = "OpNot"   -> IF Are(<<"bool">>) THEN "" ELSE "operand is not a bool"
+    [] op = "OpMinus" -> IF Are(<<"num">>) THEN "" ELSE "operand is not a num"
+    [] op = "OpArray" -> IF Has(a) /\ \A i \in 1..a : Kinds(a)[i] \in {"num", "str", "bool", "arr", "map"} THEN "" ELSE "stack underflow"
+    [] op = "OpMap"   -> IF Has(2 * a) /\ \A i \in 1..a : Kinds(2 * a)[2 * i - 1] = "str" THEN "" ELSE "keys are not strings"
+    [] op = "OpArrayConcatenate" -> IF Are(<<"arr", "arr">>) THEN "" ELSE "operands are not two arrays"
+    [] op = "OpArrayRepeat" -> IF Are(<<"arr", "num">>) THEN "" ELSE "operands are not an array and a num"
+    [] op = "OpIndex" -> IF Are(<<"arr", "num">>) \/ Are(<<"str", "num">>) \/ Are(<<"map", "str">>) THEN "" ELSE "operands cannot be indexed"
+    [] op = "OpSetIndex" -> IF Has(3) /\ (SubSeq(Kinds(3), 2, 3) = <<"arr", "num">> \/ SubSeq(Kinds(3), 2, 3) = <<"map", "str">>) THEN "" ELSE "target cannot be stored into"
+    [] op = "OpSlice" -> IF Has(3) /\ Kinds(3)[1] \in {"arr", "str"} /\ NumOrNone(Kinds(3)[2]) /\ NumOrNone(Kinds(3)[3]) THEN "" ELSE "operands cannot be sliced"
+    [] op = "OpJumpOnFalse" -> IF Are(<<"bool">>) THEN "" ELSE "condition is not a bool"
+    [] op = "OpStepRange" -> IF Are(<<"num", "num", "num">>) THEN "" ELSE "range state is not three nums"
+    [] op = "OpIterRange" -> IF Has(2) /\ Kinds(2)[1] \in {"arr", "str", "map"} /\ Kinds(2)[2] = "num"
+                                  /\ stk[n].s = "fin" /\ stk[n].e = 0 /\ stk[n].m >= 0 THEN "" ELSE "range state is not an iterable and an index"
+    [] OTHER -> ""
+
+---------------------------------------------------------------------------
 (* one step = compare the recorded observation with the state, then execute *)
 Show(x) == ToString(x)
 Disagree(what) == "step " \o Show(l) \o " ip " \o Show(ip) \o ": " \o what
@@ -243,6 +282,7 @@ Step ==
           ELSE IF Len(stk) > 0 /\ ~Renderable(stk[Len(stk)], heap) THEN verdict' = "unspec@" \o Show(l) /\ UNCHANGED <<p, ip, stk, glb, heap, l>>
           ELSE IF rec.top # TopText(stk, heap)
           THEN verdict' = Disagree("before " \o Instr.op \o " the top of the stack is " \o ToString(TopText(stk, heap)) \o ", on the VM " \o ToString(rec.top)) /\ UNCHANGED <<p, ip, stk, glb, heap, l>>
+          ELSE IF Problem # "" THEN verdict' = Disagree(Instr.op \o " cannot be executed: " \o Problem) /\ UNCHANGED <<p, ip, stk, glb, heap, l>>
           ELSE LET r == Exec IN
                CASE r.k = "go" -> /\ ip' = r.ip /\ stk' = r.stk /\ glb' = r.glb /\ heap' = r.heap /\ l' = l + 1
                                   /\ UNCHANGED <<p, verdict>>
